@@ -36,6 +36,14 @@ func jsType(t *amType, closed bool) map[string]any {
 		m["default"] = t.Default
 	}
 	if t.Nullable {
+		if name, isStr := m["type"].(string); isStr && t.NullStyle != "" && len(m) == 1 {
+			if t.NullStyle == "first" {
+				m["type"] = []any{"null", name}
+			} else {
+				m["type"] = []any{name, "null"}
+			}
+			return m
+		}
 		if t.K == "union" {
 			// `a | b | null` as one flat oneOf
 			m["oneOf"] = append(m["oneOf"].([]any), map[string]any{"type": "null"})
